@@ -31,6 +31,18 @@ CLAIMED = {
         text="Each engine (native binary, nano_virt --run) is compared separately with an executable transcription of the specification: strict left-to-right evaluation (probes whose leaves print their own id inside operators, calls, literals, cond, and/or), short-circuit, equal-precedence infix, static scoping / shadowing towers (sections 8.1, 8.2), immutability, 64-bit wrap-around. The operator table covers every ordered pair of 17 int boundaries for 11 int operators (both spellings), all bool pairs, a string set, and the unary operators, with operands arriving at run time. Exploration level; only the table is exhaustive.",
         note="The reference model is hand-written (trusted base); / and % follow C truncation. The Coq big-step relation (formal/Semantics.v) is not executed: the NanoCore/--trust-report clause is checked only through the specification semantics it shares (see DESIGN.md limits).",
         design="3/C02"),
+    "C04": dict(
+        category="exploration",
+        technique="Hypothesis-generated programs plus AST-level mutants filtered by the type checker itself; validity-predicate oracle over compile and run endings on both backends",
+        text="Domain = programs the front end accepts silently: progen programs and 1-3-point mutants of them (operator swapped, operand replaced by a variable/literal of any type, arguments swapped, declared type changed, strings under ordering) that survive nano_virt's type checker without a diagnostic. Oracle: nanoc + cc succeed, bytecode generation and verification succeed, and both runs end normally or in a documented fault; any 'C compilation failed', 'codegen failed', VM type/decode/stack error, or fatal signal is a violation. Open ledger entries exclude their trigger shape from generation and mutation (counted).",
+        note="'Accepted' is observed through nano_virt (no front-end failure, no diagnostic banner). Refusals by nanoc's compile-time shadow evaluation are left to C03/C06. Mutants keep loop headers and recursion guards intact so that they terminate.",
+        design="3/C04"),
+    "C07": dict(
+        category="exploration",
+        technique="metamorphic oracle: the same expression tree printed in prefix and in infix spelling must compile to byte-identical code/function/string sections (nano_virt --emit-nvm) and run identically; exhaustive typed operator chains of length 1-3 plus Hypothesis-generated trees",
+        text="Every typed left chain `a o1 b o2 c [o3 d]`, its right-nested variant and its unary-led variant over the 13 binary and 2 unary operators (exhaustive for those shapes over a fixed operand set), plus random trees with field chains, tuple indices, calls, negative literals and bare `not v` / `-v`, placed as let initialiser, if condition, call argument and println operand. The two spellings' .nvm files are compared section by section and --run outputs are compared; a rejection of only one spelling is a violation.",
+        note="Operands in the exhaustive part are fixed variables/literals; the nesting ramp to the parser's depth limit is not built yet. `(-a + b)` directly after an opening parenthesis is the prefix application of `-` in this language and is never generated as an infix form.",
+        design="3/C07"),
 }
 
 NOT_YET = {
